@@ -496,6 +496,7 @@ impl SwiftParser {
         &self,
         raw_message: &str,
     ) -> Result<crate::errors::ParseResult<SwiftMessage<T>>> {
+        Self::ensure_ascii(raw_message)?;
         let block1 = Self::extract_block(raw_message, 1)?;
         let block2 = Self::extract_block(raw_message, 2)?;
         let block3 = Self::extract_block(raw_message, 3)?;
@@ -547,6 +548,7 @@ impl SwiftParser {
 
     /// Parse a raw SWIFT message string into a typed message with configuration support
     pub fn parse_message<T: SwiftMessageBody>(&self, raw_message: &str) -> Result<SwiftMessage<T>> {
+        Self::ensure_ascii(raw_message)?;
         let block1 = Self::extract_block(raw_message, 1)?;
         let block2 = Self::extract_block(raw_message, 2)?;
         let block3 = Self::extract_block(raw_message, 3)?;
@@ -599,6 +601,7 @@ impl SwiftParser {
 
     /// Parse a raw SWIFT message string with automatic message type detection and configuration support
     pub fn parse_message_auto(&self, raw_message: &str) -> Result<ParsedSwiftMessage> {
+        Self::ensure_ascii(raw_message)?;
         // First, extract blocks to get the message type
         let block2 = Self::extract_block(raw_message, 2)?;
 
@@ -732,6 +735,21 @@ impl SwiftParser {
                 message_type: message_type.to_string(),
             }),
         }
+    }
+
+    /// SWIFT FIN messages use an ASCII character set; header and field parsers cut components
+    /// out by byte offset, so anything else is rejected up front instead of panicking later.
+    fn ensure_ascii(raw_message: &str) -> Result<()> {
+        if let Some((pos, ch)) = raw_message.char_indices().find(|(_, c)| !c.is_ascii()) {
+            return Err(ParseError::InvalidFormat {
+                message: format!(
+                    "Message contains non-ASCII character '{}' at byte offset {}",
+                    ch.escape_unicode(),
+                    pos
+                ),
+            });
+        }
+        Ok(())
     }
 
     /// Extract a specific message block from raw SWIFT message with SWIFT validation
